@@ -990,6 +990,41 @@ func c12TieExplore(c *Ctx) {
 	fmt.Printf("tie-explored %d lists, %d mismatches\n", n, bad)
 }
 
+func c12CfgBits(cfg c12Cfg) string {
+	b := func(x bool) byte {
+		if x {
+			return '1'
+		}
+		return '0'
+	}
+	return string([]byte{b(cfg.posix), b(cfg.elseInCmd), b(cfg.rsrvAfterIO), b(cfg.bangAlone), b(cfg.forAssign), byte('0' + cfg.fnBody), b(cfg.forBrace)})
+}
+
+type c12Case struct {
+	posix bool
+	ts    []string
+	src   string
+	known bool // a line of corpus/C12-known.txt: its Go-vs-shell disagreement is reported
+	shell bool // consult the real shell
+	kind  string
+}
+
+func c12LangName(posix bool) string {
+	if posix {
+		return "p"
+	}
+	return "b"
+}
+
+// c12 — streams:
+//   acc <b|p> toks      real syntax.Parser (LangBash / LangPOSIX) on a rendering  vs  Lean `accepts`
+//   cfg <bits> toks     the harness's transliteration vs Lean `parse c` for random rule variants
+//   specsh <b|p> toks   `bash -n` / `dash -n` on the same rendering vs Lean `shellAccepts`
+//                       (validation of the grammar: here the "implementation" side is the shell)
+// Search leg (independent of Lean): Go parser vs the real shell on the same rendering; a
+// disagreement is a failure unless it is reproduced exactly by the known rule variants
+// (transliteration with goCfg = Go answer and with shCfg = shell answer); the canonical witnesses
+// of those variants are replayed from corpus/C12-known.txt and reported through c.Fail.
 func c12(c *Ctx) {
 	if os.Getenv("C12_SAMPLE") != "" {
 		c12Sample(c)
@@ -1003,4 +1038,186 @@ func c12(c *Ctx) {
 		c12Explore(c)
 		return
 	}
+	c.Rule = "token lists over {W Q A > if then elif else fi while until do done for in case esac { } ! ( ) ; & && || | ;; NL}: " +
+		"corpus; all lists up to length 3 (quick) / 5 (thorough, sharded); programs derived from the core grammar (depth<=3) and 1-2 token " +
+		"insertions/deletions/replacements/swaps of them; each rendered with random spellings per class; both LangBash and LangPOSIX; " +
+		"non-trivial = accepted by the Go parser, or a mutant of a derived program (the exhaustive short lists are counted as trivial)"
+	g := c12Gen{c.R}
+	var cases []c12Case
+	seen := map[string]bool{}
+	shellBudget := 160
+	if c.Thorough() {
+		shellBudget = 900
+	}
+	add := func(kind string, posix bool, ts []string, known, wantShell bool) {
+		if len(ts) == 0 || len(ts) > 60 {
+			return
+		}
+		k := c12LangName(posix) + " " + strings.Join(ts, " ")
+		if seen[k] && !known {
+			return
+		}
+		seen[k] = true
+		cases = append(cases, c12Case{posix: posix, ts: ts, src: c12Src(ts, c.R), known: known, shell: wantShell || known, kind: kind})
+	}
+	// 1. corpus: `<b|p> toks…`; lines of C12-known.txt are the canonical witnesses of known findings.
+	knownSet := map[string]bool{}
+	if c.Corpus != "" {
+		if b, err := os.ReadFile(filepath.Join(c.Corpus, "C12-known.txt")); err == nil {
+			for _, l := range strings.Split(string(b), "\n") {
+				l = strings.TrimSpace(l)
+				if l != "" && !strings.HasPrefix(l, "#") {
+					knownSet[l] = true
+				}
+			}
+		}
+	}
+	for _, l := range c.CorpusLines() {
+		f := strings.Fields(l)
+		if len(f) < 2 || (f[0] != "b" && f[0] != "p") {
+			continue
+		}
+		ok := true
+		for _, t := range f[1:] {
+			if _, in := c12Variants[t]; !in {
+				ok = false
+			}
+		}
+		if ok {
+			add("corpus", f[0] == "p", f[1:], knownSet[l], true)
+		}
+	}
+	// 2. exhaustive short lists (tie only; shells on a sample).
+	maxLen := 3
+	if c.Thorough() {
+		maxLen = 5
+	}
+	idx := 0
+	cur := make([]string, 0, maxLen)
+	var exh func()
+	exh = func() {
+		if len(cur) > 0 {
+			idx++
+			if idx%c.Shards == c.Shard {
+				ts := append([]string(nil), cur...)
+				src := c12Src(ts, c.R)
+				for _, posix := range []bool{false, true} {
+					lang := syntax.LangBash
+					if posix {
+						lang = syntax.LangPOSIX
+					}
+					gres := c12Go(lang, src)
+					c.Op("acc "+c12LangName(posix)+" "+strings.Join(ts, " "), gres)
+					c.Case("x", false, "exhaustive")
+					if gres == "acc" {
+						c.Hist["exhaustive-accepted"]++
+					}
+				}
+			}
+		}
+		if len(cur) == maxLen {
+			return
+		}
+		for _, t := range c12Full {
+			cur = append(cur, t)
+			exh()
+			cur = cur[:len(cur)-1]
+		}
+	}
+	exh()
+	// 3. grammar-derived programs and their mutations.
+	for i := 0; i < c.N; i++ {
+		ts := g.program(c.R.Intn(4))
+		posix := c.R.Bool()
+		add("program", posix, ts, false, c.R.Chance(30))
+		if c.R.Chance(30) {
+			add("program", !posix, ts, false, false)
+		}
+		for j := 0; j < 2; j++ {
+			m := c12Mutate(c.R, ts)
+			if c.R.Chance(25) {
+				m = c12Mutate(c.R, m)
+			}
+			add("mutant", c.R.Bool(), m, false, c.R.Chance(30))
+		}
+	}
+	// shells: corpus first, then as many sampled cases as the budget allows.
+	var jobs []int
+	for i, cs := range cases {
+		if cs.shell && (cs.known || len(jobs) < shellBudget) {
+			jobs = append(jobs, i)
+		}
+	}
+	dir := scratchDir(c)
+	shellRes := map[int]string{}
+	res := parallelMap(len(jobs), 12, func(j int) string {
+		cs := cases[jobs[j]]
+		sh := "bash"
+		if cs.posix {
+			sh = "dash"
+		}
+		return c12Shell(c, sh, dir, j, cs.src)
+	})
+	for j, r := range res {
+		shellRes[jobs[j]] = r
+	}
+	os.RemoveAll(dir)
+	c.Extra["shell_runs"] = len(jobs)
+	for i, cs := range cases {
+		lang := syntax.LangBash
+		if cs.posix {
+			lang = syntax.LangPOSIX
+		}
+		ln := c12LangName(cs.posix)
+		toks := strings.Join(cs.ts, " ")
+		gres := c12Go(lang, cs.src)
+		c.Op("acc "+ln+" "+toks, gres)
+		// the transliteration against the Lean parser, for a random rule-variant vector
+		cfg := c12Cfg{posix: c.R.Bool(), elseInCmd: c.R.Bool(), rsrvAfterIO: c.R.Bool(), bangAlone: c.R.Bool(),
+			forAssign: c.R.Bool(), fnBody: c.R.Intn(3), forBrace: c.R.Bool()}
+		c.Op("cfg "+c12CfgBits(cfg)+" "+toks, c12Model(cfg, cs.ts))
+		mGo, mSh := c12Model(c12GoCfg(cs.posix), cs.ts), c12Model(c12ShCfg(cs.posix), cs.ts)
+		tags := []string{"kind=" + cs.kind, "lang=" + ln, fmt.Sprintf("len=%d", (len(cs.ts)+4)/5*5), "go=" + gres}
+		if mGo != mSh {
+			tags = append(tags, "in-known-variant-region")
+		}
+		sres, ran := shellRes[i]
+		if ran {
+			switch {
+			case sres == "timeout" || sres == "io-error":
+				tags = append(tags, "shell-"+sres)
+			case c12OracleQuirk(cs.posix, cs.ts):
+				tags = append(tags, "shell-oracle-quirk")
+			default:
+				tags = append(tags, "shell="+sres)
+				c.Op("specsh "+ln+" "+toks, sres)
+				if gres != sres {
+					witness := ln + " " + toks
+					what := fmt.Sprintf("syntax.Parser(%v) %s, %s -n %s: %q", lang, c12Word(gres), map[bool]string{false: "bash", true: "dash"}[cs.posix], c12Word(sres), cs.src)
+					switch {
+					case cs.known:
+						c.Fail(witness, what)
+					case mGo == gres && mSh == sres:
+						tags = append(tags, "explained-by-known-variant")
+					default:
+						c.Fail(witness, what)
+					}
+				} else if cs.known {
+					// a known finding no longer reproduces: say so (it must be closed in known-findings.jsonl)
+					c.Hist["known-finding-not-reproduced"]++
+				}
+			}
+		}
+		c.Case(ln+" "+toks, gres == "acc" || cs.kind == "mutant", tags...)
+	}
+}
+
+func c12Word(r string) string {
+	switch r {
+	case "acc":
+		return "accepts"
+	case "rej":
+		return "rejects"
+	}
+	return r
 }
